@@ -162,6 +162,16 @@ def one_history(ctx, rng, kind, with_objective=True, max_constraints=4):
         if ret is not H:
             ctx.violation("%s:does-not-return-self" % R, "add_constraint returned %r" % type(ret).__name__, w)
             return
+        if not isinstance(argP, dict) or type(argP) is not dict:
+            # the caller goes on using (and editing) its own polynomial object: the recorded constraint must not follow
+            ctx.cat("caller-edits-its-polynomial-afterwards")
+            try:
+                argP *= 0
+                argP[()] += 12345
+            except Exception:   # noqa
+                pass
+        else:
+            argP.clear()
         msgs = [str(x.message) for x in wl if issubclass(x.category, L.utils.QUBOVertWarning)]
         warned_unsat = any("cannot be satisfied" in m for m in msgs)
         if suppress and msgs:
